@@ -4,6 +4,7 @@ import (
 	"bytes"
 	"encoding/json"
 	"fmt"
+	"io"
 	"net/http"
 
 	"github.com/rs/zerolog/log"
@@ -49,7 +50,17 @@ func DecodeValid[T Validator](r *http.Request) (v T, err error) {
 			return v, fmt.Errorf("decode json: %w", err)
 		}
 	case "application/msgpack":
-		dec := msgpack.NewDecoder(r.Body)
+		body, err := io.ReadAll(r.Body)
+		if err != nil {
+			return v, fmt.Errorf("decode msgpack: %w", err)
+		}
+		// An array header carries an element count of up to 2^32-1 and the
+		// decoder allocates for it before it reads a single element. Skipping
+		// over the value first makes sure the announced elements are there.
+		if err := msgpack.NewDecoder(bytes.NewReader(body)).Skip(); err != nil {
+			return v, fmt.Errorf("decode msgpack: %w", err)
+		}
+		dec := msgpack.NewDecoder(bytes.NewReader(body))
 		// This allows the message pack decoder to use the json struct tags.
 		dec.SetCustomStructTag("json")
 		if err := dec.Decode(&v); err != nil {
